@@ -20,9 +20,14 @@ from checks.enginelib import charts, shrink
 sys.path.insert(0, os.path.join(VERIF, "translate"))
 import vhdl_eqs
 
-THEOREMS = []
+P = "UscxmlVerif.Properties.C18."
+THEOREMS = [
+    (P + "tstep_exit_is_appendix_d", "proved", "about the ORACLE of this check: for every coherent chart, every configuration of real states and every set of transitions of real states with real targets, the states Spec.TStep exits are Appendix D's computeExitSet"),
+    (P + "tstep_selection_conflict_free", "proved", "the transitions Spec.TStep selects have pairwise disjoint Appendix D exit sets (the tables' conflict relation contains Appendix D's)"),
+    (P + "select_free", "proved", "Spec.TStep.select never returns two transitions that conflict in the tables' sense"),
+]
 FINISH = {"level": "translation_validation"}
-LEAN_FILES = ["UscxmlVerif.Spec.TStep", "UscxmlVerif.Model.BoolEq"]
+LEAN_FILES = ["UscxmlVerif.Spec.TStep", "UscxmlVerif.Model.BoolEq", "UscxmlVerif.Properties.C18"]
 
 
 def fragment(d, max_conds=4):
